@@ -13,6 +13,9 @@ TLA_JAR = "/opt/veriftools/tla/tla2tools.jar"
 COMMUNITY = None
 
 
+LAST_DRIFT = 0
+
+
 class ToolError(Exception):
     pass
 
@@ -218,6 +221,8 @@ def validate_trace(trace_module, events, tag, shards=1, timeout=900, cfg=None):
         return (job, r)
 
     bad, states = [], 0
+    global LAST_DRIFT
+    LAST_DRIFT = 0
     with concurrent.futures.ThreadPoolExecutor(max_workers=min(16, len(jobs))) as ex:
         for (si, off, path, n), r in ex.map(one, jobs):
             if r["timeout"]:
@@ -230,6 +235,7 @@ def validate_trace(trace_module, events, tag, shards=1, timeout=900, cfg=None):
             if not isinstance(body, dict) or body.get("n") != n:
                 raise ToolError("trace spec %s consumed %s of %d events" % (trace_module, body, n))
             idxs = body.get("bad", [])
+            LAST_DRIFT += body.get("drift", 0)
             bad += [off + x - 1 for x in idxs]
             states += r["distinct"]
     return len(events) - len(bad), sorted(bad), states
@@ -275,6 +281,7 @@ class Run:
         self.traces_validated = 0
         self.evaluations = 0
         self.nontrivial = set()
+        self.nontriv_n = 0         # cases counted as distinct non-trivial by construction (e.g. enumerated faults)
         self.samples = []
         self.violations = []       # (replay_path, summary)
         self.known_hits = {}       # finding id -> count
@@ -327,7 +334,7 @@ class Run:
                 "states": max(self.states, 0), "transitions": max(self.transitions, 0),
                 "traces_validated_against_impl": self.traces_validated,
                 "samples": self.samples if self.samples else ["(no sample recorded)"],
-                "evaluations": self.evaluations + self.replayed, "distinct_nontrivial": len(self.nontrivial),
+                "evaluations": self.evaluations + self.replayed, "distinct_nontrivial": len(self.nontrivial) + self.nontriv_n,
                 "rule": self.rule, "exhaustive": self.exhaustive,
                 "design_models": self.design, "behaviours_replayed_into_impl": self.replayed,
                 "trace_events_validated": self.events, "model_drift_warnings": self.drift,
